@@ -40,18 +40,20 @@ class XPathAxis(XPathToken):
     def select_with_focus(self, context: XPathContext) -> Iterator[ta.ItemType]:
         """Select item with an inner focus on dynamic context."""
         status = context.item, context.size, context.position, context.axis
-        results = [x for x in self.select(context)]
-        context.item, context.size, context.position, context.axis = status
-        context.axis = None
+        try:
+            results = [x for x in self.select(context)]
+            context.item, context.size, context.position, context.axis = status
+            context.axis = None
 
-        if self.reverse_axis:
-            context.size = context.position = len(results)
-            for context.item in results:
-                yield context.item
-                context.position -= 1
-        else:
-            context.size = len(results)
-            for context.position, context.item in enumerate(results, start=1):
-                yield context.item
-
-        context.item, context.size, context.position, context.axis = status
+            if self.reverse_axis:
+                context.size = context.position = len(results)
+                for context.item in results:
+                    yield context.item
+                    context.position -= 1
+            else:
+                context.size = len(results)
+                for context.position, context.item in enumerate(results, start=1):
+                    yield context.item
+        finally:
+            # also when the consumer stops early or a step raises
+            context.item, context.size, context.position, context.axis = status
